@@ -44,6 +44,7 @@ import Driver.SViable
 import Driver.C09B
 import Driver.AnnQ
 import Driver.KeyType
+import Driver.DocCursor
 /-!
 Line-protocol driver `jsight-model` (DESIGN.md §12). One request per line on stdin, one reply per
 line on stdout. Core Lean only: nothing imported here may import Mathlib (the executable would
@@ -250,6 +251,8 @@ def handle (line : String) : String :=
   | "atree" :: _ => Drv.ATreeD.handle line
   | "atreeex" :: _ => Drv.ATreeExD.handle line
   | "annq" :: r => Drv.AnnQ.handle r
+  | "doccur" :: r => Drv.DocCur.handle r
+  | "doccurx" :: r => Drv.DocCur.handleX r
   | "omap" :: _ => DOMap.handle (restOf line)
   | "semn" :: _ => DSemN.handle (restOf line)
   | "sem" :: _ => DSem.handle (restOf line)
